@@ -583,7 +583,7 @@ class GIRWriter(XMLWriter):
             attrs.append(('setter', prop.setter))
         if prop.getter:
             attrs.append(('getter', prop.getter))
-        if prop.default_value:
+        if prop.default_value is not None:
             attrs.append(('default-value', prop.default_value))
         with self.tagcontext('property', attrs):
             self._write_generic(prop)
